@@ -2225,11 +2225,17 @@ class DateAdapter(se.Adapter):
         secs, frac = divmod(val, self._multiplier)
         try:
             when = datetime.datetime.fromtimestamp(secs)
+            text = when.replace(microsecond=frac * 1_000_000 // self._multiplier).isoformat()
+            # The text is a naive local time, so the second pass through a repeated DST hour
+            # reads back as the first one, and the last local hours of year 9999 don't read
+            # back at all. Only hand out a text that means the stamp it was made from.
+            if self.encode(text, ctx) != val:
+                return val
         except (ValueError, OverflowError, OSError):
             # Further out than `datetime` reaches. Same convention as the enum
             # adapters, what can't be prettified stays a plain number.
             return val
-        return when.replace(microsecond=frac * 1_000_000 // self._multiplier).isoformat()
+        return text
 
     def encode(self, val: Any, ctx: Optional[se.ParseContext]) -> Any:
         if isinstance(val, int):
